@@ -52,7 +52,7 @@ Lemma denote_no_crash g fs im : denote g fs im <> RCrash.
 Proof. unfold denote. destruct (i_src im); [discriminate|apply fresh_read_no_crash]. Qed.
 
 (* ------------------------------------------------------------------ (1) a save never crashes *)
-Definition is_write (o : op) : bool := match o with Save _ _ | ToBytes _ => true | _ => false end.
+Definition is_write (o : op) : bool := match o with Save _ _ | ToBytes _ | SaveFull _ => true | _ => false end.
 
 Lemma save_step_no_crash g w o : g_fix g = true -> is_write o = true -> snd (step g w o) <> OCrash.
 Proof.
@@ -65,6 +65,10 @@ Proof.
     pose proof (denote_no_crash g (w_fs w) im) as Hn.
     destruct (denote g (w_fs w) im) as [v| |]; [|discriminate|congruence].
     rewrite Hf. rewrite andb_false_r. discriminate.
+  - (* SaveFull *)
+    destruct (img_at w s) as [im|]; [|discriminate].
+    pose proof (denote_no_crash g (w_fs w) im) as Hn.
+    destruct (denote g (w_fs w) im); try discriminate; congruence.
   - (* ToBytes *)
     unfold do_tobytes. destruct (img_at w s) as [im|]; [|discriminate].
     pose proof (denote_no_crash g (w_fs w) im) as Hn.
@@ -267,6 +271,11 @@ Proof.
         cbn [short_for] in Hs. rewrite Hc', He, Nat.eqb_refl in Hs. cbn [andb] in Hs.
         unfold flen in *. cbn [k_dt] in *. rewrite Hs. destruct (dtype_eqb od d'); discriminate.
       * rewrite nth_upd_other by exact Hne. exact Hb.
+  - (* SaveFull *)
+    pose proof (save_step_no_crash g w (SaveFull s) Hf eq_refl) as Hnc. unfold step in Hnc. rewrite Hdead in Hnc.
+    split; [exact Hnc|].
+    destruct (img_at w s) as [im|]; [|exact B].
+    destruct (denote g (w_fs w) im); exact B.
   - (* ToBytes *)
     pose proof (save_step_no_crash g w (ToBytes s) Hf eq_refl) as Hnc. unfold step in Hnc. rewrite Hdead in Hnc.
     split; [exact Hnc|].
